@@ -18,6 +18,11 @@
 //   wb:<B>:<chunk>:<rd>:<limit>:<mode>  UnixVolume.WriteBlock with a scripted reader
 //                                   rd = eof | e<j> (error after j chunks) | x<j> (SIGKILL in the
 //                                   Read call after j chunks); limit = RLIMIT_FSIZE bytes (0 = none)
+//   put2:<B>:<n>:<ja>:<jb>:<end>    two overlapping PUTs of the same block in one process: A is held when
+//                                   its WriteBlock has read ja chunks of n bytes, B is started and held
+//                                   after jb chunks, A runs to its end (acknowledged), then B is
+//                                   cancelled (end=cancel), runs to its end (finish) or the process is
+//                                   killed (kill)
 //   touch:<B>:<mode>  del:<B>:<lt>:<mode>  untrash:<B>:<mode>  empty:<mode>     mode = run | k<i>
 // k<i>: SIGKILL itself when the i-th verifPoint (0-based, counted over the whole op) is reached;
 // c<i>: cancel the request context (CloseNotify) at that point instead.
@@ -171,7 +176,7 @@ type verifC02Gate struct {
 	*UnixVolume
 	mu   sync.Mutex
 	ctx  context.Context
-	wrap func(io.Reader) io.Reader
+	wrap func(context.Context, io.Reader) io.Reader
 }
 
 func (g *verifC02Gate) setCtx(ctx context.Context) {
@@ -198,7 +203,7 @@ func (g *verifC02Gate) Put(ctx context.Context, loc string, block []byte) error 
 
 func (g *verifC02Gate) WriteBlock(ctx context.Context, loc string, rdr io.Reader) error {
 	if g.wrap != nil {
-		rdr = g.wrap(rdr)
+		rdr = g.wrap(ctx, rdr)
 	}
 	return g.UnixVolume.WriteBlock(ctx, loc, rdr)
 }
@@ -286,11 +291,11 @@ func TestVerifC02Child(t *testing.T) {
 	f := strings.Split(spec, ":")
 	mode := f[len(f)-1]
 	target := -1
-	if len(mode) > 1 && (mode[0] == 'k' || mode[0] == 'c') {
+	if f[0] != "put2" && len(mode) > 1 && (mode[0] == 'k' || mode[0] == 'c') {
 		target, _ = strconv.Atoi(mode[1:])
 	}
 	midAfter, midChunk := -1, 0
-	if len(mode) > 1 && mode[0] == 'm' {
+	if f[0] != "put2" && len(mode) > 1 && mode[0] == 'm' {
 		jc := strings.Split(mode[1:], "x")
 		if len(jc) != 2 {
 			panic("bad m mode")
@@ -313,7 +318,7 @@ func TestVerifC02Child(t *testing.T) {
 	resp := &verifC02Resp{ResponseRecorder: httptest.NewRecorder(), closed: make(chan bool, 1)}
 	handlerDone := make(chan struct{})
 	var gate *verifC02Gate
-	if f[0] == "put" {
+	if f[0] == "put" || f[0] == "put2" {
 		mnt := srv.volmgr.AllWritable()[0]
 		gate = &verifC02Gate{UnixVolume: mnt.Volume.(*UnixVolume)}
 		mnt.Volume = gate
@@ -344,7 +349,7 @@ func TestVerifC02Child(t *testing.T) {
 		}
 	}
 	if gate != nil && midAfter >= 0 {
-		gate.wrap = func(r io.Reader) io.Reader {
+		gate.wrap = func(_ context.Context, r io.Reader) io.Reader {
 			return &verifC02GateReader{inner: r, chunk: midChunk, cancelAfter: midAfter, fire: func() {
 				say("C")
 				cancelNow(true)
@@ -381,6 +386,95 @@ func TestVerifC02Child(t *testing.T) {
 		if resp.Code == 200 && strings.TrimSpace(resp.Body.String()) != fmt.Sprintf("%s+%d", verifC02Hash(body), len(body)) {
 			result = "200-bad-locator"
 		}
+	case "put2":
+		body := verifC02Body(f[1])
+		chunk, _ := strconv.Atoi(f[2])
+		ja, _ := strconv.Atoi(f[3])
+		jb, _ := strconv.Atoi(f[4])
+		if chunk < 1 {
+			panic("bad chunk")
+		}
+		type role struct {
+			pauseAt        int
+			paused, resume chan struct{}
+			ctx            context.Context
+			resp           *verifC02Resp
+			done           chan struct{}
+		}
+		mk := func(j int) *role {
+			return &role{pauseAt: j, paused: make(chan struct{}), resume: make(chan struct{}), done: make(chan struct{}),
+				resp: &verifC02Resp{ResponseRecorder: httptest.NewRecorder(), closed: make(chan bool, 1)}}
+		}
+		roles := []*role{mk(ja), mk(jb)}
+		var wrapMu sync.Mutex
+		nWrap := 0
+		gate.wrap = func(ctx context.Context, r io.Reader) io.Reader {
+			wrapMu.Lock()
+			i := nWrap
+			nWrap++
+			wrapMu.Unlock()
+			if i >= len(roles) {
+				return r
+			}
+			ro := roles[i]
+			ro.ctx = ctx
+			return &verifC02GateReader{inner: r, chunk: chunk, cancelAfter: ro.pauseAt, fire: func() {
+				close(ro.paused)
+				<-ro.resume
+			}}
+		}
+		start := func(ro *role) bool {
+			go func() {
+				srv.handler.ServeHTTP(ro.resp, verifC02Request("PUT", "/"+verifC02Hash(body), body))
+				close(ro.done)
+			}()
+			select {
+			case <-ro.paused:
+				return true
+			case <-ro.done:
+			case <-time.After(60 * time.Second):
+			}
+			return false
+		}
+		wait := func(c chan struct{}) {
+			select {
+			case <-c:
+			case <-time.After(60 * time.Second):
+				say("R put2-timeout")
+				os.Exit(0)
+			}
+		}
+		a, b := roles[0], roles[1]
+		if !start(a) || !start(b) {
+			say("R no-overlap")
+			os.Exit(0)
+		}
+		close(a.resume)
+		wait(a.done)
+		switch f[5] {
+		case "kill":
+			syscall.Kill(os.Getpid(), syscall.SIGKILL)
+			select {}
+		case "cancel":
+			b.resp.closed <- true
+			select {
+			case <-b.ctx.Done():
+			case <-time.After(60 * time.Second):
+				say("R cancel-timeout")
+				os.Exit(0)
+			}
+			wait(b.done)
+			close(b.resume)
+		case "finish":
+			close(b.resume)
+			wait(b.done)
+		default:
+			panic("bad end")
+		}
+		for i := 0; i < 20000 && verifC02WriterRunning(); i++ {
+			time.Sleep(time.Millisecond)
+		}
+		result = fmt.Sprintf("%d&%d", a.resp.Code, b.resp.Code)
 	case "touch":
 		body := verifC02Body(f[1])
 		srv.handler.ServeHTTP(resp, verifC02Request("TOUCH", "/"+verifC02Hash(body), nil))
@@ -697,7 +791,7 @@ func verifC02Run(line string, tmp string, n int) (out string) {
 		case g[0] == "tick" && len(g) == 1:
 			h.tick()
 		case g[0] == "put" && len(g) == 3, g[0] == "touch" && len(g) == 3, g[0] == "untrash" && len(g) == 3,
-			g[0] == "del" && len(g) == 4, g[0] == "wb" && len(g) == 6:
+			g[0] == "del" && len(g) == 4, g[0] == "wb" && len(g) == 6, g[0] == "put2" && len(g) == 6:
 			h.note(g[1])
 			r := h.child(op)
 			h.normalise()
